@@ -8,7 +8,9 @@
 (* Mode = "pinned": the pinned revision assigned backpointers[target] = src for    *)
 (*   EVERY epsilon edge (deviation Path_BackpointerOverwritten): TLC finds a walk  *)
 (*   that never reaches R (epsilon self-loop q0->x, x->x, x->f).                   *)
-EXTENDS Util
+EXTENDS Util, FA, CFG, Steps
+(* PathFixedAgrees (below) ties the actions of this model, for Mode = "fixed", to the step functions  *)
+(* PathPop / PathEdge of Steps.tla that the fine-grained trace validation (JTRACE) uses.              *)
 CONSTANTS Q, Mode, RChoices, FChoices
 None == "none"
 VARIABLES E, R, f, visited, todo, bp, src, pending, cur, path, ph
@@ -81,4 +83,14 @@ NoneIffUnreachable == ph = "done" => ((path = <<>>) <=> (f \notin Reachable))
 BpForest == (Mode = "fixed" /\ ph \in {"search", "walk"}) =>
                \A q \in Q : bp[q] # None => (bp[q] \in visited /\ q \notin R)
 Terminates == <>(ph = "done")
+(* every step of the fixed model is the corresponding Steps.tla step on (visited, todo, bp) *)
+AsSt == [visited |-> visited, todo |-> todo, bp |-> {<<q, bp[q]>> : q \in {q \in Q : bp[q] # None}},
+         cur |-> IF src = None THEN "~none~" ELSE src, found |-> ph \in {"walk", "done"} /\ path # <<>> /\ f \notin R]
+PathFixedAgrees ==
+  [][(Mode = "fixed" /\ ph = "search" /\ ph' \in {"search", "walk"}) =>
+       \/ (\E s \in todo : src = None /\ src' = s /\
+              AsSt'.visited = PathPop(AsSt, s).visited /\ AsSt'.todo = PathPop(AsSt, s).todo /\ AsSt'.bp = PathPop(AsSt, s).bp)
+       \/ (\E e \in pending : LET n == PathEdge(AsSt, f, e[2])
+                               IN AsSt'.visited = n.visited /\ AsSt'.bp = n.bp /\ (ph' = "search" => AsSt'.todo = n.todo))
+       \/ UNCHANGED <<visited, todo, bp>>]_vars
 =============================================================================
